@@ -764,6 +764,71 @@ Theorem C06_same_model_body2d_rate :
 Proof. exact same_model_body2d_rate. Qed.
 Print Assumptions C06_same_model_body2d_rate.
 
+(** noise-free generate_ned_velocity_measurements at the true state: z = 0 exactly (3D, 2D) *)
+Theorem C06_sim_zero_residual_ned :
+  forall lat lon alt VN VE VD roll pitch heading sd n0 n1 n2 : R,
+       (forall k : nat, (k < 3)%nat -> simZ_ned3d lat lon alt VN VE VD roll pitch heading sd 0 n0 n1 n2 k = 0) /\
+       (forall k : nat, (k < 2)%nat -> simZ_ned2d lat lon alt VN VE VD roll pitch heading sd 0 n0 n1 n2 k = 0).
+Proof. exact sim_zero_residual_ned. Qed.
+Print Assumptions C06_sim_zero_residual_ned.
+
+(** noise-free generate_body_velocity_measurements at the true state: z = 0 exactly *)
+Theorem C06_sim_zero_residual_body :
+  forall lat lon alt VN VE VD roll pitch heading sd n0 n1 n2 : R,
+       (forall k : nat,
+        (k < 3)%nat -> simZ_body3d lat lon alt VN VE VD roll pitch heading sd 0 n0 n1 n2 k = 0) /\
+       (forall k : nat,
+        (k < 3)%nat -> simZ_body2d lat lon alt VN VE VD roll pitch heading sd 0 n0 n1 n2 k = 0).
+Proof. exact sim_zero_residual_body. Qed.
+Print Assumptions C06_sim_zero_residual_body.
+
+(** noise-free generate_position_measurements at the true state: z = 0 exactly; down row = -(s n2) exactly for every s *)
+Theorem C06_sim_zero_residual_pos :
+  forall lat lon alt VN VE VD roll pitch heading sd n0 n1 n2 : R,
+       (forall k : nat, (k < 3)%nat -> simZ_pos3d lat lon alt VN VE VD roll pitch heading sd n0 n1 n2 k 0 = 0) /\
+       (forall k : nat, (k < 2)%nat -> simZ_pos2d lat lon alt VN VE VD roll pitch heading sd n0 n1 n2 k 0 = 0) /\
+       (forall s : R, simZ_pos3d lat lon alt VN VE VD roll pitch heading sd n0 n1 n2 2 s = - (s * n2)).
+Proof. exact sim_zero_residual_pos. Qed.
+Print Assumptions C06_sim_zero_residual_pos.
+
+(** injected error e = s n (rng.randn = n, error_sd = s): z = -e exactly *)
+Theorem C06_sim_injected_error_ned :
+  forall lat lon alt VN VE VD roll pitch heading sd s n0 n1 n2 : R,
+       (forall k : nat,
+        (k < 3)%nat ->
+        simZ_ned3d lat lon alt VN VE VD roll pitch heading sd s n0 n1 n2 k = - (s * vec3 n0 n1 n2 k)) /\
+       (forall k : nat,
+        (k < 2)%nat ->
+        simZ_ned2d lat lon alt VN VE VD roll pitch heading sd s n0 n1 n2 k = - (s * vec3 n0 n1 n2 k)).
+Proof. exact sim_injected_error_ned. Qed.
+Print Assumptions C06_sim_injected_error_ned.
+
+(** injected error e = s n: z = -e exactly *)
+Theorem C06_sim_injected_error_body :
+  forall lat lon alt VN VE VD roll pitch heading sd s n0 n1 n2 : R,
+       (forall k : nat,
+        (k < 3)%nat ->
+        simZ_body3d lat lon alt VN VE VD roll pitch heading sd s n0 n1 n2 k = - (s * vec3 n0 n1 n2 k)) /\
+       (forall k : nat,
+        (k < 3)%nat ->
+        simZ_body2d lat lon alt VN VE VD roll pitch heading sd s n0 n1 n2 k = - (s * vec3 n0 n1 n2 k)).
+Proof. exact sim_injected_error_body. Qed.
+Print Assumptions C06_sim_injected_error_body.
+
+(** Position, injected error s n metres: d/ds|0 z = -n (z = -e to first order; perturb_lla uses the radii at the truth, compute_lla_difference at the mid point) *)
+Theorem C06_sim_injected_error_pos :
+  forall lat lon alt VN VE VD roll pitch heading sd n0 n1 n2 : R,
+       -90 < lat < 90 ->
+       -1000000 <= alt ->
+       (forall k : nat,
+        (k < 3)%nat ->
+        is_derive (simZ_pos3d lat lon alt VN VE VD roll pitch heading sd n0 n1 n2 k) 0 (- vec3 n0 n1 n2 k)) /\
+       (forall k : nat,
+        (k < 2)%nat ->
+        is_derive (simZ_pos2d lat lon alt VN VE VD roll pitch heading sd n0 n1 n2 k) 0 (- vec3 n0 n1 n2 k)).
+Proof. exact sim_injected_error_pos. Qed.
+Print Assumptions C06_sim_injected_error_pos.
+
 (** non-vacuity: the hypotheses are satisfiable on a concrete, non-trivial state *)
 Example C06_domain_nonempty :
   -90 < 48 < 90 /\ -1000000 <= 350 /\ -180 < 12 < 180 /\ -90 < -8 < 90 /\ -180 < 130 < 180 /\ (1 < 3)%nat.
